@@ -47,21 +47,32 @@ def _hash_tree(root, h, rel_filter=None):
         h.update(b"\0")
 
 
-def tree_hash():
-    h = hashlib.sha256()
-    _hash_tree(REPO, h)
-    for sub in ("engine/mirdump/src", "engine/declscan/src", "engine/extract.sh", "corpus", "witness"):
+def _hash_subs(h, subs):
+    for sub in subs:
         p = os.path.join(VERIF, sub)
         if os.path.isdir(p):
             for dp, dn, fn in sorted(os.walk(p)):
                 dn[:] = sorted(d for d in dn if d != "target")
                 for f in sorted(fn):
-                    if f.endswith((".rs", ".toml", ".sh", ".lock")):
+                    if f.endswith((".rs", ".toml", ".sh")):
                         h.update(f.encode())
                         h.update(open(os.path.join(dp, f), "rb").read())
         elif os.path.isfile(p):
             h.update(open(p, "rb").read())
+
+
+def tree_hash():
+    """state of /repo + the fact extractor"""
+    h = hashlib.sha256()
+    _hash_tree(REPO, h)
+    _hash_subs(h, ("engine/mirdump/src", "engine/extract.sh"))
     return h.hexdigest()[:20]
+
+
+def sub_hash(*subs):
+    h = hashlib.sha256()
+    _hash_subs(h, subs)
+    return h.hexdigest()[:10]
 
 
 class Analysis:
@@ -133,7 +144,7 @@ class Analysis:
             ws = os.path.join(VERIF, "corpus")
             shutil.copy(os.path.join(REPO, "Cargo.lock"), os.path.join(ws, "Cargo.lock"))
             self._extract(ws, out, ["--all-targets"])
-        return self._step("facts-corpus", run)
+        return self._step("facts-corpus-" + sub_hash("corpus"), run)
 
     def corpus(self):
         if "corpus" not in self._programs:
